@@ -20,6 +20,7 @@ RULE = (
     "bins/chrom), extent/offset/bins.fetch/pixels.fetch/matrix.fetch by the new name equal what the model "
     "predicts (= what the old name returned), and a name no longer in use is refused. Non-trivial = >=2 names "
     "changed in a step, one longer than any previous name, chain >= 2. Distinct by sha1 of the canonical case."
+    ' The Cooler object under test may be constructed with h5py options for its own handles (in-memory core driver with and without backing store, chunk cache size, libver).'
     ' A third of the chains applies ONE mapping object first to a sibling cooler holding only the first chromosome, then to the cooler under test.'
 )
 ASSUMPTIONS = ["renaming maps only name existing chromosomes and never produce duplicate names"]
@@ -66,7 +67,10 @@ def cases(draw):
             "h5opts": draw(st.sampled_from([None, {"compression": None}])),
             # history: ONE mapping object is applied first to another cooler that holds only some of the chromosomes
             # (a name table looped over samples), then to the cooler under test
-            "shared_map": draw(st.integers(0, 2)) == 0}
+            "shared_map": draw(st.integers(0, 2)) == 0,
+            # the Cooler object may carry h5py options for its own (read) handles; renaming still has to reach the file
+            "open_kws": draw(st.sampled_from([None, None, None, {"driver": "core", "backing_store": False}, {"driver": "core"},
+                                               {"rdcc_nbytes": 1048576}, {"libver": "latest"}]))}
 
 
 def check_rename(case, ctx: Ctx):
@@ -96,7 +100,7 @@ def check_rename(case, ctx: Ctx):
         with h5py.File(path, "r") as f:
             digest0 = h5_deep_digest(f[case["group"]], skip)
             codes0 = np.asarray(f[case["group"]]["bins/chrom"][:], dtype=np.int64)
-        clr = cooler.Cooler(uri)
+        clr = cooler.Cooler(uri, **(case.get("open_kws") or {}))
         cur = list(bt["names"])
         br0 = model.bins_rows(bt)
         # the object is USED before the first renaming (name-based lookups and joined tables may be cached on it)
@@ -174,7 +178,7 @@ def check_rename(case, ctx: Ctx):
     longest0 = max(len(x) for x in bt["names"])
     nt = len(case["chain"]) >= 2 and any(len(m) >= 2 for m in case["chain"]) and \
         any(len(v) > longest0 for m in case["chain"] for v in m.values())
-    ctx.record(case, nt, ["rename", f"chain={len(case['chain'])}", "shared-mapping-object" if case.get("shared_map") else "own-mapping", "enc=" + case["encoding"], "group=" + case["group"],
+    ctx.record(case, nt, ["rename", f"chain={len(case['chain'])}", "shared-mapping-object" if case.get("shared_map") else "own-mapping", "enc=" + case["encoding"], "group=" + case["group"], "open-kws=" + ("+".join(sorted(case.get("open_kws") or {})) or "none"),
                           "has-swap" if any(set(m.values()) & set(m.keys()) for m in case["chain"]) else "no-swap",
                           "longer" if any(len(v) > longest0 for m in case["chain"] for v in m.values()) else "not-longer"])
 
@@ -237,6 +241,6 @@ def replay(ctx: Ctx, case):
 
 def run(ctx: Ctx):
     q = ctx.tier == "quick"
-    if not run_given(ctx, "rename", cases(), check_rename, per_shard(ctx, 480 if q else 14000), batch=40):
+    if not run_given(ctx, "manycontig", manycontig_cases(), check_manycontig, per_shard(ctx, 64 if q else 1600), batch=8):
         return
-    run_given(ctx, "manycontig", manycontig_cases(), check_manycontig, per_shard(ctx, 64 if q else 1600), batch=8)
+    run_given(ctx, "rename", cases(), check_rename, per_shard(ctx, 480 if q else 14000), batch=40)
